@@ -321,8 +321,10 @@ class ProgramSet(NamedItem):
         for prog in self.programs.values():
             if code_name in prog.target_pops:
                 prog.target_pops.remove(code_name)
-            if (prog.name, code_name) in self.covouts:
-                self.covouts.pop((prog.name, code_name))
+
+        for par_name in self.pars:  # nb. the program effects are keyed by (parameter, population)
+            if (par_name, code_name) in self.covouts:
+                self.covouts.pop((par_name, code_name))
 
         del self.pops[code_name]
 
